@@ -351,6 +351,14 @@ partial def aexpr? : Sexp → Option AExpr
 
 def stepGraph (st : DState) (e : Sexp) : Option (DState × String) :=
   match e with
+  | .list (.atom "gvocab" :: .atom bits :: cl :: opnames) => do
+    -- `TransformationGraph(lang, with_canonical_types=True, <bits>, with_transitive_closure=cl).add_vocabulary()` without labels
+    let cl ← boolOf cl
+    let names ← opnames.mapM atomStr
+    let cfg := { gcfgOfBits (bits.toList.map (· == 'T')) with withCanonicalTypes := true }
+    match vocabulary st.glang cfg cl names with
+    | .error ge => pure (st, "E:" ++ showGErr ge)
+    | .ok ts => pure (st, "ok root - out - " ++ showTriples ts)
   | .list [.atom "gexpra", .atom bits, ex] => do
     -- the graph of an expression given as a tree (expanded composite operators: abstractions in argument position)
     let ex ← aexpr? ex
